@@ -15,7 +15,7 @@ ASSUMPTIONS = ["tokio timers/RwLock/BTreeMap behave as documented; order of inde
                "`stream completion` is a ghost event: the code base has no such signal (no FIN is ever sent, C08/F1)",
                "the model is tied to session_pool.rs / client.rs by differential execution on the cases counted below (sampling) and by the regenerated shape constants"]
 Case = Case
-OWN = ("malformed", "handed_closed", "closed_outside", "reaper_closed_busy", "min_idle", "surplus")
+OWN = ("malformed", "request_failed", "handed_closed", "closed_outside", "reaper_closed_busy", "min_idle", "surplus")
 
 
 def corpus_cases():
